@@ -313,9 +313,10 @@ def import_connection_target(
 
 
 def import_concat(pconc: vckt.Concat, module: Module) -> Concat:
-    """Import a (potentially nested) Concatenation"""
+    """Import a (potentially nested) Concatenation.
+    VLSIR lists the most-significant part first; Hdl21 `Concat`s list the least-significant part first."""
     parts = []
-    for ppart in pconc.parts:
+    for ppart in reversed(pconc.parts):
         part = import_connection_target(ppart, module)
         parts.append(part)
     return Concat(*parts)
